@@ -66,15 +66,14 @@ Proof.
   eauto.
 Qed.
 
-(** The uint64 arithmetic of partialKeys computes the window and does not
-    panic when offset and limit are below 2^63. *)
-Lemma partial_keys_window off n ks :
-  off < two63 -> n < two63 -> partial_keys off n ks = Some (window off n ks).
+(** The uint64 arithmetic of partialKeys, on the whole uint64 range.
+    As long as [off + n] does not wrap around it computes the window ... *)
+Lemma partial_keys_nowrap off n ks :
+  off + n < two64 -> partial_keys off n ks = Some (window off n ks).
 Proof.
-  intros Ho Hn. unfold partial_keys, window, lenN.
+  intros Hw. unfold partial_keys, window, lenN.
   set (L := length ks).
-  assert ((off + n) mod two64 = off + n) as ->.
-  { apply N.mod_small. unfold two63, two64 in *. lia. }
+  assert ((off + n) mod two64 = off + n) as -> by (now apply N.mod_small).
   destruct (N.ltb_spec (N.of_nat L) off) as [H1|H1];
   destruct (N.ltb_spec (N.of_nat L) (off + n)) as [H2|H2].
   - (* offset beyond the end *)
@@ -92,6 +91,40 @@ Proof.
   - destruct (N.ltb_spec (off + n) off) as [H3|H3]; [lia|]. f_equal.
     rewrite (N.min_l off) by lia. rewrite (N.min_l n) by lia.
     rewrite skipn_firstn_comm. f_equal. lia.
+Qed.
+
+(** ... in particular on the range of the statement (offsets and limits up to
+    2^63 - 1) ... *)
+Lemma partial_keys_window off n ks :
+  off < two63 -> n < two63 -> partial_keys off n ks = Some (window off n ks).
+Proof.
+  intros Ho Hn. apply partial_keys_nowrap. unfold two63, two64 in *. lia.
+Qed.
+
+(** ... and when [off + n] wraps around (only possible with an offset or a
+    limit of 2^63 or more, outside the statement) the end index falls below
+    the start index: the slice expression panics unless both are clamped to
+    the same value, in which case nothing is visited. *)
+Lemma partial_keys_wrap off n ks :
+  off < two64 -> n < two64 -> two64 <= off + n ->
+  partial_keys off n ks =
+  if N.min (off + n - two64) (lenN ks) <? N.min off (lenN ks) then None else Some [].
+Proof.
+  intros Ho Hn Hw. unfold partial_keys, lenN.
+  set (L := N.of_nat (length ks)).
+  assert ((off + n) mod two64 = off + n - two64) as ->.
+  { assert (off + n = (off + n - two64) + 1 * two64) as E by lia.
+    rewrite E at 1. rewrite N.mod_add by (unfold two64; lia).
+    apply N.mod_small. lia. }
+  set (e := off + n - two64).
+  assert (e < off) as He by (unfold e; lia).
+  assert ((if L <? off then L else off) = N.min off L) as ->.
+  { destruct (N.ltb_spec L off); lia. }
+  assert ((if L <? e then L else e) = N.min e L) as ->.
+  { destruct (N.ltb_spec L e); lia. }
+  destruct (N.ltb_spec (N.min e L) (N.min off L)) as [H|H]; [reflexivity|].
+  assert (N.min e L = N.min off L) as -> by lia.
+  f_equal. rewrite skipn_firstn_comm, Nat.sub_diag. reflexivity.
 Qed.
 
 (** ** Fetching the entries of sorted keys again (walkKeys) *)
@@ -162,29 +195,54 @@ Proof.
   intros k e Hin. apply filter_In in Hin. apply abs_items; tauto.
 Qed.
 
+Lemma mem_walk_partial_nowrap f off n desc m :
+  nodupk m -> off + n < two64 ->
+  mem_walk f m (partial_keys off n (sort_keys desc (mem_keys m)))
+  = walk_result f (window off n (dir desc (abs m))).
+Proof.
+  intros Hn Hw. unfold mem_walk, mem_keys.
+  rewrite sort_keys_abs, partial_keys_nowrap, window_map by assumption.
+  rewrite fetch_keys_items; [reflexivity|].
+  intros k e Hin. apply window_incl in Hin. now apply (dir_items desc).
+Qed.
+
+Lemma mem_walk_partial_class_nowrap f c off n desc m :
+  nodupk m -> off + n < two64 ->
+  mem_walk f m (partial_keys off n (sort_keys desc (mem_class_keys c m)))
+  = walk_result f (window off n (dir desc (filter (has_class c) (abs m)))).
+Proof.
+  intros Hn Hw. unfold mem_walk, mem_class_keys.
+  rewrite sort_keys_abs by (now apply nodupk_filter_class).
+  rewrite partial_keys_nowrap, window_map by assumption.
+  rewrite abs_filter by exact Hn.
+  rewrite fetch_keys_items; [reflexivity|].
+  intros k e Hin. apply window_incl in Hin. rewrite dir_filter in Hin.
+  apply filter_In in Hin. apply (dir_items desc); tauto.
+Qed.
+
+Lemma range_nowrap off n : off < two63 -> n < two63 -> off + n < two64.
+Proof. unfold two63, two64. lia. Qed.
+
 Lemma mem_walk_partial f off n desc m :
   nodupk m -> off < two63 -> n < two63 ->
   mem_walk f m (partial_keys off n (sort_keys desc (mem_keys m)))
   = walk_result f (window off n (dir desc (abs m))).
-Proof.
-  intros Hn Ho Hl. unfold mem_walk, mem_keys.
-  rewrite sort_keys_abs, partial_keys_window, window_map by assumption.
-  rewrite fetch_keys_items; [reflexivity|].
-  intros k e Hin. apply window_incl in Hin. now apply (dir_items desc).
-Qed.
+Proof. intros. apply mem_walk_partial_nowrap; auto using range_nowrap. Qed.
 
 Lemma mem_walk_partial_class f c off n desc m :
   nodupk m -> off < two63 -> n < two63 ->
   mem_walk f m (partial_keys off n (sort_keys desc (mem_class_keys c m)))
   = walk_result f (window off n (dir desc (filter (has_class c) (abs m)))).
+Proof. intros. apply mem_walk_partial_class_nowrap; auto using range_nowrap. Qed.
+
+(** When [off + n] wraps around, the memory walk panics or visits nothing. *)
+Lemma mem_walk_wrap f m off n ks :
+  off < two64 -> n < two64 -> two64 <= off + n ->
+  mem_walk f m (partial_keys off n ks) =
+  if N.min (off + n - two64) (lenN ks) <? N.min off (lenN ks) then RErr EPanic else RWalk [] None.
 Proof.
-  intros Hn Ho Hl. unfold mem_walk, mem_class_keys.
-  rewrite sort_keys_abs by (now apply nodupk_filter_class).
-  rewrite partial_keys_window, window_map by assumption.
-  rewrite abs_filter by exact Hn.
-  rewrite fetch_keys_items; [reflexivity|].
-  intros k e Hin. apply window_incl in Hin. rewrite dir_filter in Hin.
-  apply filter_In in Hin. apply (dir_items desc); tauto.
+  intros Ho Hn Hw. rewrite (partial_keys_wrap off n ks Ho Hn Hw).
+  destruct (_ <? _); reflexivity.
 Qed.
 
 (** ** One step *)
@@ -235,26 +293,46 @@ Definition sql_canon (t : table) (o : bop) : table * result :=
   | BWalk f => (t, walk_result f (abs t))
   | BWalkClass c f => (t, walk_result f (abs (filter (has_class c) t)))
   | BWalkPartial off n desc f =>
-      (t, walk_result f (window off n (if desc then isort kgtb t else abs t)))
+      match sql_window off n (if desc then isort kgtb t else abs t) with
+      | Some rows => (t, walk_result f rows)
+      | None => (t, RErr EOther)
+      end
   | BWalkPartialClass c off n desc f =>
-      (t, walk_result f (window off n (if desc then isort kgtb (filter (has_class c) t)
-                                       else abs (filter (has_class c) t))))
+      match sql_window off n (if desc then isort kgtb (filter (has_class c) t)
+                              else abs (filter (has_class c) t)) with
+      | Some rows => (t, walk_result f rows)
+      | None => (t, RErr EOther)
+      end
   | o => mem_step t o
   end.
 
+Lemma sql_window_ok off n (rows : table) :
+  off < two63 -> n < two63 -> sql_window off n rows = Some (window off n rows).
+Proof.
+  intros Ho Hn. unfold sql_window, int64_end, two63 in *.
+  destruct (N.leb_spec 9223372036854775808 n); [lia|].
+  destruct (N.eqb_spec n 0) as [->|Hz].
+  - unfold window. now rewrite N.min_0_l.
+  - destruct (N.leb_spec 9223372036854775808 off); [lia|reflexivity].
+Qed.
+
 Lemma sql_canon_eq t o : sql_step deployed_methods t o = sql_canon t o.
 Proof.
-  destruct o; unfold sql_step, exec_method, rows_method, sql_canon, mem_step; cbn;
+  destruct o; unfold sql_step, exec_method, rows_method, sql_canon, mem_step; cbn -[sql_window];
     try reflexivity;
     try (destruct (lookup k t) as [[c0 v0]|]; cbn; try reflexivity).
   all: try (destruct (f v0); reflexivity).
+  all: destruct desc; destruct (sql_window _ _ _); reflexivity.
 Qed.
 
 Lemma sql_step_refines : step_refines (sql_step deployed_methods).
 Proof.
   intros t o Hn Hok. rewrite !sql_canon_eq.
   destruct o; try exact (mem_step_refines t _ Hn Hok);
-    cbn [sql_canon spec_step fst snd]; (split; [exact Hn|split; [reflexivity|]]).
+    cbn [sql_canon spec_step fst snd bop_okb] in *;
+    try (apply bop_ok_partial in Hok; destruct Hok as [Ho Hl];
+         rewrite sql_window_ok by assumption);
+    cbn [fst snd]; (split; [exact Hn|split; [reflexivity|]]).
   - reflexivity.
   - now rewrite abs_filter.
   - destruct desc; cbn [dir]; [rewrite abs_desc by exact Hn|]; reflexivity.
